@@ -22,6 +22,11 @@ type FlagFlow struct {
 	// EdgeTransfer (optional) refines the state along the edge from -> to.
 	EdgeTransfer func(from, to *ssa.BasicBlock, st uint64) uint64
 
+	// Replaying is true while Transfer is being called for a deferred call that
+	// is executed at a rundefers point (as opposed to the Defer instruction being
+	// visited at the place where it registers the call).
+	Replaying bool
+
 	before  map[ssa.Instruction]uint64
 	in      []uint64
 	visited []bool
@@ -69,7 +74,9 @@ func (f *FlagFlow) Run() {
 					} else if d.Block() != b && !reachableFrom(d.Block(), nil)[b] {
 						continue
 					}
+					f.Replaying = true
 					st = f.Transfer(d, st)
+					f.Replaying = false
 				}
 			}
 		}
